@@ -2773,6 +2773,127 @@ def rule_F26(prog):
     return r
 
 
+# ---------------------------------------------------------------- F27: the split threshold of group_diff_ops
+_TWICE = r"(?:\((\w+)\*lit:2\)|\(lit:2\*(\w+)\)|\((\w+)\+(\w+)\)|(\w+)\.(?:saturating_mul|wrapping_mul)\(lit:2\)|\((\w+)<<lit:1\))"
+
+
+def rule_F27(prog):
+    r = RuleResult("F27", "group_diff_ops starts a new group exactly when an equal run is longer than twice the radius: the "
+                          "condition under which an Equal op is cut into a trailing and a leading context piece is "
+                          "`len > 2 * n` (strictly greater, the whole run length against twice the radius)")
+    for fn in prog.find("common::group_diff_ops"):
+        bodies = [fn] + [g for g in _local_callees(prog, fn)]
+        conds = []
+        for g in bodies:
+            lets = _lets(g)
+            # the `if` (or match guard) whose taken branch builds DiffOp::Equal pieces
+            for n in find_nodes(g.hir["body"], lambda n: n["k"] == "if"):
+                if find_nodes(n["t"], lambda x: x["k"] == "struct" and str(x.get("adt", "")).endswith("DiffOp")) or \
+                        find_nodes(n["t"], lambda x: x["k"] in ("call", "mcall") and any(
+                            find_nodes(h.hir["body"], lambda y: y["k"] == "struct" and str(y.get("adt", "")).endswith("DiffOp"))
+                            for h in [_call_target(prog, x)[0]] if h is not None and h.hir and h is not g)):
+                    conds.append((g, origin_deep(n["c"], lets), n))
+            for mn in find_nodes(g.hir["body"], lambda n: n["k"] == "match"):
+                for a in mn["arms"]:
+                    if a.get("guard") and find_nodes(a["body"], lambda x: x["k"] == "struct" and str(x.get("adt", "")).endswith("DiffOp") or
+                                                     (x["k"] in ("call", "mcall"))):
+                        conds.append((g, origin_deep(a["guard"], lets), a["guard"]))
+        # keep comparisons only
+        cmps = [(g, o, n) for g, o, n in conds if re.match(r"^\(.*(>=|<=|>|<).*\)$", o)]
+        r.instances += 1
+        if not cmps:
+            r.ob(False, "group_diff_ops: no split condition found")
+            r.find(fn.path, "no-threshold", "group_diff_ops: the condition that starts a new group (a comparison guarding the cut of "
+                   "an Equal op) was not found", file=fn.file, line=fn.line)
+            continue
+        bad = []
+        for g, o, n in cmps:
+            ok = bool(re.match(r"^\((\w+)>%s\)$" % _TWICE, o) or re.match(r"^\(%s<(\w+)\)$" % _TWICE, o))
+            if not ok:
+                bad.append((o, n.get("line", fn.line)))
+        r.ob(not bad, "group_diff_ops split condition(s): %s" % [o for _, o, _ in cmps])
+        if bad:
+            r.find(fn.path, "threshold", "group_diff_ops cuts an equal run under the condition `%s`; a run must be cut exactly when "
+                   "its length is strictly greater than twice the radius (`len > n * 2`)" % bad[0][0], file=fn.file, line=bad[0][1])
+    return r
+
+
+# ---------------------------------------------------------------- F28: the unified-diff range format distinguishes by length only
+def rule_F28(prog):
+    r = RuleResult("F28", "the `start,len` part of a hunk header is formatted by the length of the range alone: the cases "
+                          "`len == 1` (start only) and `len == 0` (start moved to the line before the range) are tested as "
+                          "such, with no additional condition")
+    fns = [f for f in prog.user_fns() if f.name == "fmt" and f.impl and f.impl.get("trait") == "std::fmt::Display" and
+           ty_head(f.impl["self_ty"]) == "udiff::UnifiedDiffHunkRange" and f.hir and f.hir.get("body")]
+    for fn in fns:
+        lets = _lets(fn)
+        len_locals = set()
+        for st in find_nodes(fn.hir["body"], lambda n: n.get("k") == "let" and isinstance(n.get("pat"), dict) and n["pat"].get("k") == "bind"):
+            if st.get("init"):
+                o = origin_deep(st["init"], lets)
+                if "saturating_sub(" in o or re.match(r"^\(.*-.*\)$", o):
+                    len_locals.add(st["pat"].get("name"))
+        r.instances += 1
+        bad = []
+        for n in find_nodes(fn.hir["body"], lambda n: n["k"] == "if"):
+            o = origin(n["c"])
+            used = [l for l in len_locals if re.search(r"(?<![\w.])%s\b" % re.escape(l), o)]
+            if not used:
+                continue
+            if not re.match(r"^\((%s)==lit:\d+\)$" % "|".join(map(re.escape, used)), o) and \
+                    not re.match(r"^\(lit:\d+==(%s)\)$" % "|".join(map(re.escape, used)), o):
+                bad.append((o, n.get("line", fn.line)))
+        r.ob(not bad, "hunk range Display: length tests %s" % ("are plain equalities" if not bad else bad))
+        if bad:
+            r.find(fn.path, "range-format", "the hunk range is formatted under the condition `%s`: the unified format depends on "
+                   "the length of the range only (`len == 1`: start alone; `len == 0`: the line before the range)" % bad[0][0],
+                   file=fn.file, line=bad[0][1])
+    return r
+
+
+# ---------------------------------------------------------------- F29: the degenerate case of the similarity ratio
+def rule_F29(prog):
+    r = RuleResult("F29", "get_diff_ratio returns the constant 1.0 only for two empty sequences: every condition under which it "
+                          "returns a float literal tests the COMBINED length `old_len + new_len` against 0 (one empty side alone "
+                          "has ratio 0, not 1)")
+    for fn in prog.find("common::get_diff_ratio"):
+        lets = _lets(fn)
+        pn = [pp["pat"].get("name") for pp in fn.hir["params"]]
+        if len(pn) < 3:
+            continue
+        a, b = pn[1], pn[2]
+        r.instances += 1
+        bad = []
+        sites = []
+        for n in find_nodes(fn.hir["body"], lambda n: n["k"] == "if"):
+            def is_float_lit(x):
+                x = unwrap(x)
+                for _ in range(3):
+                    if isinstance(x, dict) and x.get("k") == "block" and x["b"].get("expr") and not x["b"]["stmts"]:
+                        x = unwrap(x["b"]["expr"])
+                    elif isinstance(x, dict) and x.get("k") == "block" and not x["b"].get("expr") and len(x["b"]["stmts"]) == 1 and \
+                            x["b"]["stmts"][0].get("k") in ("expr", "semi"):
+                        x = unwrap(x["b"]["stmts"][0]["e"])
+                if isinstance(x, dict) and x.get("k") == "ret":
+                    x = unwrap(x.get("x"))
+                return isinstance(x, dict) and x.get("k") == "lit" and re.match(r"^\d+\.\d*(_?f32|_?f64)?$", str(x.get("src", "")))
+            branches = [(n["c"], n["t"], False)] + ([(n["c"], n["f"], True)] if n.get("f") else [])
+            for c, br, neg in branches:
+                if is_float_lit(br):
+                    o = origin_deep(c, lets)
+                    sites.append(o)
+                    sums = ("(%s+%s)" % (a, b), "(%s+%s)" % (b, a))
+                    ok_pos = any(o in ("(%s==lit:0)" % s_, "(lit:0==%s)" % s_) for s_ in sums)
+                    ok_neg = any(o in ("(%s!=lit:0)" % s_, "(%s>lit:0)" % s_, "(lit:0!=%s)" % s_, "(lit:0<%s)" % s_) for s_ in sums)
+                    if not ((not neg and ok_pos) or (neg and ok_neg)):
+                        bad.append((o, n.get("line", fn.line)))
+        r.ob(not bad, "get_diff_ratio: constant results under %s" % sites)
+        if bad:
+            r.find(fn.path, "ratio-degenerate", "get_diff_ratio returns a constant under `%s`; only `%s + %s == 0` makes the ratio "
+                   "undefined -- with one side empty and the other not, the ratio is 0" % (bad[0][0], a, b), file=fn.file, line=bad[0][1])
+    return r
+
+
 # ---------------------------------------------------------------- premises of reviewed exceptions (spec.EXCEPTIONS)
 def premise_delete_arm_suffix_on_empty_range(prog, finding=None):
     """In shift_diff_ops_up's (Delete, Equal) arm every common_suffix_len call measures against the new range of the
